@@ -50,11 +50,31 @@ def configs(rng, reaction, label):
         yield cfg
 
 
+def spec_source(tier):
+    """random synthetic reactions, preceded by fixed shapes that random sampling reaches too rarely in the quick tier:
+    topologies in which both children of a node decay further (four final states: (01)(23); five: four of the five shapes)"""
+    from .. import ampl_universe as U
+
+    fixed = [dict(nfs=4, shape="balanced", helset="full", maxspin2=2, ntop=1, formalism="helicity"),
+             dict(nfs=4, shape="balanced", helset="restricted", maxspin2=2, ntop=1, formalism="canonical-helicity")]
+    if tier == "thorough":
+        fixed += [dict(nfs=5, shape="balanced", helset="restricted", maxspin2=2, ntop=1), dict(nfs=5, shape="balanced", helset="restricted", maxspin2=0, ntop=1),
+                  dict(nfs=4, shape="balanced", helset="full", maxspin2=4, ntop=2)]
+    state = {"n": 0}
+
+    def fn(rng):
+        i = state["n"]
+        state["n"] += 1
+        return U.synth_spec(rng, **fixed[i]) if i < len(fixed) else U.synth_spec(rng)
+
+    return fn
+
+
 def run(chk, replay=None):
     tier = chk.tier
     chk.assume("TLC/SANY", "sympy free_symbols / xreplace", "symbols compared as name + explicitly set assumptions")
     real = ampl_run.REAL_THOROUGH if tier == "thorough" else ampl_run.REAL_QUICK
-    cases = ampl_run.build_cases(chk, n_synth=250 if tier == "thorough" else 22, configs=configs, real=real, which={"closure"}, budget_s=1000 if tier == "thorough" else 55, reformulate=True)
+    cases = ampl_run.build_cases(chk, n_synth=250 if tier == "thorough" else 22, configs=configs, real=real, which={"closure"}, budget_s=1000 if tier == "thorough" else 55, reformulate=True, spec_fn=spec_source(tier))
     ok_cases = [c for c in cases if c[3] is not None]
     inadmissible = 0
     for label, reaction, cfg, model, rec in cases:
